@@ -511,9 +511,23 @@ func (*Ufs) Read(req *SrvReq) {
 			}
 		}
 
+		if tc.Offset >= uint64(len(fid.dirents)) {
+			// at or past the end (or nothing listed yet): no data
+			SetRreadCount(rc, 0)
+			req.Respond()
+			return
+		}
+
+		// a read may only start where an entry starts
+		if tc.Offset != 0 {
+			i := sort.SearchInts(fid.direntends, int(tc.Offset))
+			if i >= len(fid.direntends) || fid.direntends[i] != int(tc.Offset) {
+				req.RespondError(Ebadoffset)
+				return
+			}
+		}
+
 		switch {
-		case tc.Offset > uint64(len(fid.dirents)):
-			count = 0
 		case len(fid.dirents[tc.Offset:]) > int(tc.Count):
 			count = int(tc.Count)
 		default:
